@@ -8,9 +8,10 @@ impl Mutex<HashMap<Hash, htlc_manager::PaymentState>> {
     #[verifier::external_body]
     fn lock(&self, Tracked(w): Tracked<&mut World>) -> (g: MutexGuard<HashMap<Hash, htlc_manager::PaymentState>>)
         requires !old(w).lock_held,
-        ensures rely(World { lock_held: true, received_read: final(w).received_read, min_expiry_read: final(w).min_expiry_read, ..*old(w) }, *final(w)),
+        ensures rely(World { lock_held: true, received_read: final(w).received_read, min_expiry_read: final(w).min_expiry_read, height_at_init: final(w).height_at_init, ..*old(w) }, *final(w)),
             final(w).lock_held, g.snap@ == *final(w),
             final(w).received_read == final(w).received, final(w).min_expiry_read == final(w).min_expiry,
+            final(w).height_at_init == final(w).height,
     { unimplemented!() }
 }
 impl MutexGuard<HashMap<Hash, htlc_manager::PaymentState>> {
